@@ -187,8 +187,17 @@ def remove_task(sections, task):
 
 
 def _dedupe(items):
+    """Drop duplicates, and plain nodes of tasks that an edge mentions (a
+    bare node would make the task's success required)."""
+    in_edges = set()
+    for it in items:
+        if it[0] == 'edge':
+            in_edges.add(it[2])
+            in_edges.update(a[1] for a in atoms(it[1]) if a[2] == 0)
     seen = []
     for it in items:
+        if it[0] == 'node' and it[1] in in_edges:
+            continue
         if it not in seen:
             seen.append(it)
     return seen
@@ -261,17 +270,25 @@ def edge_candidates(sections) -> List[Tuple[str, int, str]]:
     return out
 
 
+def _succ(sections, task, off=0):
+    """`task:succeeded` atom, optional iff the term already says so."""
+    opt = 'succeeded' in optional_outputs(sections).get(task, ())
+    return A(task, off, 'succeeded', opt)
+
+
 def add_edge(sections, cand):
     u, off, v = cand
     rec, items = sections[-1]
-    return list(sections[:-1]) + [(rec, list(items) + [E(A(u, off), v)])]
+    return list(sections[:-1]) + [
+        (rec, list(items) + [E(_succ(sections, u, off), v)])]
 
 
 def add_task(sections):
     """A new task `n` downstream of the first task of the graph."""
     rec, items = sections[-1]
     first = term_tasks(sections)[0]
-    return list(sections[:-1]) + [(rec, list(items) + [E(A(first), 'n')])]
+    return list(sections[:-1]) + [
+        (rec, list(items) + [E(_succ(sections, first), 'n')])]
 
 
 def definitions(spec: dict, tier: str) -> Dict[str, list]:
@@ -295,7 +312,7 @@ def definitions(spec: dict, tier: str) -> Dict[str, list]:
     if drop is None:
         drop = [tasks[0], tasks[-1]] if tier == 'thorough' else [tasks[-1]]
         if len(tasks) == 1:
-            drop = tasks
+            drop = []       # (an empty graph is not a valid definition)
     for t in _dedupe(list(drop)):
         out[f'-task:{t}'] = remove_task(secs, t)
     n_edges = sum(1 for _r, its in secs for it in its if it[0] == 'edge')
